@@ -198,12 +198,30 @@ func generateConfig(r *rand.Rand, dumphook string, feedURLs []string) genConfig 
 	}
 	// [network]
 	wroteNet := false
+	// the decoder matches keys case-insensitively, so differently-cased spellings set the same options
+	caseVariant := r.Intn(6) == 0
+	spell := func(k string) string {
+		if !caseVariant {
+			return k
+		}
+		switch r.Intn(3) {
+		case 0:
+			return strings.ToUpper(k)
+		case 1:
+			return strings.ToUpper(k[:1]) + k[1:]
+		}
+		parts := strings.Split(k, "_")
+		for i := range parts {
+			parts[i] = strings.ToUpper(parts[i][:1]) + parts[i][1:]
+		}
+		return strings.Join(parts, "_")
+	}
 	for _, k := range []string{"preload_amount", "timeout_seconds", "cache_size"} {
 		if !present("network." + k) {
 			continue
 		}
 		if !wroteNet {
-			b.WriteString("[network]\n")
+			b.WriteString("[" + spell("network") + "]\n")
 			wroteNet = true
 		}
 		v := intValue()
@@ -211,7 +229,7 @@ func generateConfig(r *rand.Rand, dumphook string, feedURLs []string) genConfig 
 			v = []string{`"5s"`, `"1m"`, `2.5`}[r.Intn(3)]
 			g.Notes = append(g.Notes, "duration-variant")
 		}
-		fmt.Fprintf(&b, "%s = %s\n", k, v)
+		fmt.Fprintf(&b, "%s = %s\n", spell(k), v)
 		if strings.HasPrefix(v, "-") || v == "0" {
 			g.Notes = append(g.Notes, k+"="+v)
 		}
